@@ -149,7 +149,13 @@ func kinds() []kind {
 	}
 }
 
+// multiParam is one parameter of a several-parameter scenario.
+type multiParam struct {
+	Name, Type, Loc, Val, JSON string
+}
+
 type caseInfo struct {
+	Multi    []multiParam // several-parameter scenario (signature order); the single-parameter fields are unused
 	K        kind
 	Loc      string
 	Ptr      bool
@@ -238,6 +244,60 @@ func buildCases(tier string) ([]scen.Case, map[string]caseInfo) {
 			}
 		}
 	}
+	// several parameters at once: every order of four same-typed parameters bound from four different locations
+	// (written as one grouped declaration and as separate ones), mixed types, and a context parameter in between -
+	// the method must receive each value at its own position
+	perm4 := [][]int{}
+	var permute func(cur []int, used int)
+	permute = func(cur []int, used int) {
+		if len(cur) == 4 {
+			perm4 = append(perm4, append([]int(nil), cur...))
+			return
+		}
+		for i := 0; i < 4; i++ {
+			if used&(1<<i) == 0 {
+				permute(append(cur, i), used|1<<i)
+			}
+		}
+	}
+	permute(nil, 0)
+	base4 := []multiParam{{"pa", "string", "Path", "va", `"va"`}, {"qb", "string", "Query", "vb", `"vb"`}, {"hc", "string", "Header", "vc", `"vc"`}, {"fd", "string", "FormField", "vd", `"vd"`}}
+	addMulti := func(ps []multiParam, grouped bool, ctxAt int, family string) {
+		id := fmt.Sprintf("b%04d", n)
+		n++
+		route := "/op"
+		m := scen.Method{Name: "Op" + id, Verb: "POST", Ret: "string", GroupParams: grouped}
+		for i, p := range ps {
+			if i == ctxAt {
+				m.Params = append(m.Params, scen.Param{Name: "ctx", Type: "context.Context"})
+			}
+			m.Params = append(m.Params, scen.Param{Name: p.Name, Type: p.Type, In: p.Loc})
+			if p.Loc == "Path" {
+				route += "/{" + p.Name + "}"
+			}
+		}
+		m.Route = scen.S(route)
+		ctl := scen.Controller{Name: "C" + id, Pkg: id, Prefix: scen.S("/" + id), Tag: scen.S("T" + id), Methods: []scen.Method{m}}
+		var order []string
+		for _, p := range ps {
+			order = append(order, p.Name)
+		}
+		cases = append(cases, scen.Case{ID: id, Unit: scen.Unit{Controllers: []scen.Controller{ctl}, Decls: map[string]string{}},
+			Features: map[string]string{"kind": family, "in": "several", "order": strings.Join(order, ","), "grouped": fmt.Sprint(grouped), "ptr": "false"}, Desc: ctl})
+		inf[id] = caseInfo{Multi: ps, K: kind{Name: family}, Loc: "several", Ctx: ctxAt >= 0}
+	}
+	for pi, pm := range perm4 {
+		if tier != "thorough" && pi%2 == 1 {
+			continue
+		}
+		ps := []multiParam{base4[pm[0]], base4[pm[1]], base4[pm[2]], base4[pm[3]]}
+		addMulti(ps, true, -1, "4-strings")
+		addMulti(ps, false, pi%5-1, "4-strings")
+	}
+	ints := []multiParam{{"n1", "int", "Query", "1", "1"}, {"n2", "int", "Query", "2", "2"}, {"n3", "int", "Query", "3", "3"}, {"lim", "string", "Query", "x", `"x"`}, {"n4", "int", "Header", "4", "4"}}
+	addMulti(ints, true, -1, "grouped-ints-then-string")
+	addMulti([]multiParam{ints[3], ints[0], ints[1], ints[2]}, true, -1, "string-then-grouped-ints")
+	addMulti([]multiParam{ints[0], ints[3], ints[1], ints[4], ints[2]}, false, 2, "alternating-types")
 	return cases, inf
 }
 
@@ -321,6 +381,43 @@ func makeReqsFor(inf map[string]caseInfo, metas map[string]reqMeta) func(scen.Ca
 		mu.Lock()
 		defer mu.Unlock()
 		ci := inf[c.ID]
+		if ci.Multi != nil {
+			// all present, then each one omitted in turn
+			var out []rt.Request
+			for omit := -1; omit < len(ci.Multi); omit++ {
+				rq := rt.Request{ID: fmt.Sprintf("%s#%d", c.ID, omit+1), Verb: "POST", URL: "/" + c.ID + "/op", Headers: map[string]string{}, ContentType: "application/x-www-form-urlencoded"}
+				q, form := url.Values{}, url.Values{}
+				skip := false
+				for i, p := range ci.Multi {
+					if i == omit {
+						if p.Loc == "Path" {
+							skip = true
+						}
+						continue
+					}
+					switch p.Loc {
+					case "Path":
+						rq.URL += "/" + url.PathEscape(p.Val)
+					case "Query":
+						q.Set(p.Name, p.Val)
+					case "Header":
+						rq.Headers[p.Name] = p.Val
+					case "FormField":
+						form.Set(p.Name, p.Val)
+					}
+				}
+				if skip {
+					continue
+				}
+				if len(q) > 0 {
+					rq.URL += "?" + q.Encode()
+				}
+				rq.Body = form.Encode()
+				metas[rq.ID] = reqMeta{Absent: omit >= 0, Val: value{Raw: fmt.Sprint(omit)}}
+				out = append(out, rq)
+			}
+			return out
+		}
 		wire := "p"
 		if ci.Alias != "" {
 			wire = ci.Alias
@@ -551,6 +648,28 @@ func Main(tier, replay string) {
 					rep("request-does-not-panic", "panic "+resp.Panic)
 					continue
 				}
+				if ci.Multi != nil {
+					var want []string
+					for _, p := range ci.Multi {
+						want = append(want, p.JSON)
+					}
+					wantArgs := "[" + strings.Join(want, ",") + "]"
+					switch {
+					case m.Absent:
+						rejected++
+						if len(names) != 0 || resp.Status != 422 {
+							rep("invalid-request-is-422-without-invocation", "omitting one non-pointer parameter of several must be answered 422 without invoking the method")
+						}
+					case len(names) != 1:
+						rep("canonical-in-range-value-must-bind", "a request carrying every parameter was not delivered to the method")
+					case !sameJSON(args[0], wantArgs):
+						rep("arguments-arrive-in-signature-order", fmt.Sprintf("the method received %s, the signature order of the sent values is %s", args[0], wantArgs))
+					default:
+						bound++
+						invoked++
+					}
+					continue
+				}
 				called := len(names) == 1
 				got := ""
 				if called && len(args[0]) >= 2 {
@@ -612,7 +731,7 @@ func Main(tier, replay string) {
 	run.Outcome("canonical", int64(bound))
 	run.Outcome("expected-422", int64(rejected))
 	run.Sample(map[string]any{"scenario": cases[len(cases)/2].Desc, "values": kinds()[1].Vals()[:6]})
-	run.Bound = fmt.Sprintf("%d binding scenarios: 17 parameter kinds x {path, query, header, form} x pointer x wire alias x validator (numeric: gte=80), JSON bodies (struct, []struct, pointer); per parameter the kind's value alphabet (boundary values that must bind exactly, values that must be refused, odd syntaxes) plus the absent request, and the absent request and one canonical value again with a decoy value under the same wire name in every other location; x 5 engines x {all generator switches off, validateResponsePayload + validateTopLevelOnlyEnum + generateEnumValidator on}", len(cases))
+	run.Bound = fmt.Sprintf("%d binding scenarios: 17 parameter kinds x {path, query, header, form} x pointer x wire alias x validator (numeric: gte=80), JSON bodies (struct, []struct, pointer; with and without a validator on @Body), several-parameter signatures (orders of four same-typed parameters from four locations, grouped and separate declarations, context in between; every parameter omitted in turn); per parameter the kind's value alphabet (boundary values that must bind exactly, values that must be refused, odd syntaxes) plus the absent request, and the absent request and one canonical value again with a decoy value under the same wire name in every other location; x 5 engines x {all generator switches off, validateResponsePayload + validateTopLevelOnlyEnum + generateEnumValidator on}", len(cases))
 	run.Rule = "state = (scenario, request value, engine); transition = one HTTP request served in-process by a compiled generated router with an echoing controller; validated = executions whose recorded arguments and status were compared with the binding reference model"
 	run.Assumptions = []string{"odd syntaxes ('+5', ' 5', '0x10', full-width digits, NaN, empty strings, values containing '/') are only required not to bind a silently wrong value", "value alphabets are boundary/representative, not all representable values"}
 	os.RemoveAll(scratch)
